@@ -116,15 +116,27 @@ class World:
                          descriptors={'session': 'a', 'noise': np.eye(3)},
                          rdm_descriptors={'subj': ['s1', 's2', 's3', 's4'], 'grp': np.array([1, 1, 2, 2])},
                          pattern_descriptors={'cond': ['c1', 'c2', 'c3', 'c4', 'c5'], 'conds': ['c1', 'c2', 'c3', 'c4', 'c5'],
-                                              'cat': np.array([1, 1, 2, 2, 3])})
+                                              'cat': np.array([1, 1, 2, 2, 3]),
+                                              'stim': np.array([100, 101, 102, 103, 104])})
+        T['rdms'].rdm_descriptors['sess'] = np.array([10, 11, 12, 13])
+        # an object derived by a structural operation: non-trivial index descriptors, dicts shared with a parent
+        parent = RDMs(rng.uniform(0.2, 2, (3, 15)), dissimilarity_measure='euclidean',
+                      rdm_descriptors={'subj': ['s7', 's8', 's9'], 'sess': np.array([20, 21, 22])},
+                      pattern_descriptors={'cond': ['c0', 'c1', 'c2', 'c3', 'c4', 'c5'],
+                                           'stim': np.array([99, 100, 101, 102, 103, 104])})
+        T['rdms_sub'] = parent.subset_pattern('cond', ['c1', 'c2', 'c3', 'c4', 'c5'])
         T['rdms2'] = RDMs(rng.uniform(0.2, 2, (2, n)), dissimilarity_measure='euclidean',
                           descriptors={'session': 'b'},
                           rdm_descriptors={'subj': ['s5', 's6'], 'grp': np.array([3, 3])},
                           pattern_descriptors={'cond': ['c1', 'c2', 'c3', 'c4', 'c5'], 'conds': ['c1', 'c2', 'c3', 'c4', 'c5'],
-                                               'cat': np.array([1, 1, 2, 2, 3])})
+                                               'cat': np.array([1, 1, 2, 2, 3]),
+                                               'stim': np.array([100, 101, 102, 103, 104])})
+        T['rdms2'].rdm_descriptors['sess'] = np.array([14, 15])
         T['model_rdms'] = RDMs(rng.uniform(0.2, 2, (3, n)), dissimilarity_measure='euclidean',
-                               pattern_descriptors={'cond': ['c1', 'c2', 'c3', 'c4', 'c5']})
-        T['model_rdm1'] = RDMs(rng.uniform(0.2, 2, (1, n)), pattern_descriptors={'cond': ['c1', 'c2', 'c3', 'c4', 'c5']})
+                               pattern_descriptors={'cond': ['c1', 'c2', 'c3', 'c4', 'c5'],
+                                                    'stim': np.array([100, 101, 102, 103, 104])})
+        T['model_rdm1'] = RDMs(rng.uniform(0.2, 2, (1, n)), pattern_descriptors={'cond': ['c1', 'c2', 'c3', 'c4', 'c5'],
+                                                                               'stim': np.array([100, 101, 102, 103, 104])})
         nobs, nch = 15, 4
         T['dataset'] = Dataset(rng.uniform(0.5, 3, (nobs, nch)), descriptors={'subj': 's1'},
                                obs_descriptors={'conds': [f'c{1 + i % 5}' for i in range(nobs)],
@@ -153,8 +165,8 @@ class World:
         T['nc'] = rng.uniform(0.8, 0.95, (2, 6))
         T['tensor'] = rng.uniform(0.5, 3, (4, 3, 2))
         # tracked objects are pairwise disjoint at the start: the list holds its own two models
-        T['models'] = [ModelFixed('fa', RDMs(rng.uniform(0.2, 2, (1, n)), pattern_descriptors={'cond': ['c1', 'c2', 'c3', 'c4', 'c5']})),
-                       ModelWeighted('wb', RDMs(rng.uniform(0.2, 2, (2, n)), pattern_descriptors={'cond': ['c1', 'c2', 'c3', 'c4', 'c5']}))]
+        T['models'] = [ModelFixed('fa', RDMs(rng.uniform(0.2, 2, (1, n)), pattern_descriptors={'cond': ['c1', 'c2', 'c3', 'c4', 'c5'], 'stim': np.array([100, 101, 102, 103, 104])})),
+                       ModelWeighted('wb', RDMs(rng.uniform(0.2, 2, (2, n)), pattern_descriptors={'cond': ['c1', 'c2', 'c3', 'c4', 'c5'], 'stim': np.array([100, 101, 102, 103, 104])}))]
         for key, cls, src in (('m_fixed', ModelFixed, 'model_rdm1'), ('m_weighted', ModelWeighted, 'model_rdms'),
                               ('m_select', ModelSelect, 'model_rdms'), ('m_interp', ModelInterpolate, 'model_rdms')):
             T[key] = cls(key, T[src].copy())
@@ -196,7 +208,31 @@ class Uncovered(Exception):
     pass
 
 
-def build_args(world, fn, owner=None, qual=''):
+N_VARIANTS = 3
+# optional parameters that are varied across argument variants (variant 0 = the callable's defaults)
+OPTIONS = {
+    'pattern_descriptor': [None, 'stim', 'cond'],
+    'rdm_descriptor': [None, 'sess', 'subj'],
+    'random': [None, True, True],
+    'boot_type': [None, 'pattern', 'rdm'],
+    'normalize': [None, True, False],
+    'k_pattern': [None, 1, 2],
+    'k_rdm': [None, 2, 1],
+    'n_cv': [None, 1, 2],
+    'weighting': [None, 'equal', 'number'],
+    'remove_mean': [None, True, False],
+    'sort': [None, False, True],
+    'boot_noise_ceil': [None, False, True],
+}
+METHODS = {
+    'compare': ['cosine', 'corr', 'rho-a'],
+    'fit': ['cosine', 'corr', 'corr_cov'],
+    'eval': ['cosine', 'corr', 'cosine_cov'],
+    'pool': ['cosine', 'corr', 'spearman'],
+}
+
+
+def build_args(world, fn, owner=None, qual='', variant=0):
     """positional argument list for fn from the world; raises Uncovered when a required parameter has no factory"""
     T = world.t
     sig = inspect.signature(fn)
@@ -208,11 +244,17 @@ def build_args(world, fn, owner=None, qual=''):
             continue
         if p.kind == p.VAR_POSITIONAL:
             if pname == 'rdms':
-                args += [T['rdms'], T['rdms2']]
-                used += ['rdms', 'rdms2']
+                if variant == 1:          # a single object is a documented call form, too
+                    args += [T['rdms']]
+                    used += ['rdms']
+                else:
+                    args += [T['rdms'], T['rdms2']]
+                    used += ['rdms', 'rdms2']
             continue
         required = p.default is inspect._empty
-        val = _special(world, qual, pname, owner)
+        val = _special(world, qual, pname, owner, variant)
+        if val is _NOARG and not required and variant and pname in OPTIONS and OPTIONS[pname][variant] is not None:
+            val = (OPTIONS[pname][variant], [])
         if val is _NOARG:
             if not required:
                 skipped = True
@@ -245,7 +287,7 @@ def build_args(world, fn, owner=None, qual=''):
 _NOARG = object()
 
 
-def _special(world, qual, pname, owner):
+def _special(world, qual, pname, owner, variant=0):
     """call-specific arguments (overrides the by-name table)"""
     T = world.t
     q = qual.split('.')[-2:] if '.' in qual else ['', qual]
@@ -259,8 +301,11 @@ def _special(world, qual, pname, owner):
                     'cov_from_unbalanced', 'prec_from_unbalanced'):
             return ('shrinkage_diag', [])
         if name == 'rescale':
-            return ('evidence', [])
-        return ('cosine', [])
+            return (['evidence', 'setsize', 'simple'][variant % 3], [])
+        fam = 'fit' if name.startswith('fit_') or name == 'fit' else \
+            'pool' if 'pool' in name else \
+            'compare' if name == 'compare' else 'eval'
+        return (METHODS[fam][variant % 3], [])
     if owner in ('RDMs',):
         if name in ('subset', 'subsample') and pname == 'by':
             return ('subj', [])
@@ -444,7 +489,7 @@ OWNER_OBJ = {'Result': 'result', 'RDMs': 'rdms', 'Dataset': 'dataset', 'Temporal
              'ModelWeighted': 'm_weighted', 'ModelSelect': 'm_select', 'ModelInterpolate': 'm_interp'}
 
 
-def call(world, qual, fn, owner):
+def call(world, qual, fn, owner, variant=0):
     """perform the operation on the world; returns (result, names of tracked arguments)"""
     T = world.t
     name = qual.split('.')[-1]
@@ -453,18 +498,21 @@ def call(world, qual, fn, owner):
         if owner is not None:
             if owner not in OWNER_OBJ:
                 raise Uncovered(f'no tracked instance of {owner}')
-            args, kwargs, used = build_args(world, fn, owner, qual)
-            obj = T[OWNER_OBJ[owner]]
+            args, kwargs, used = build_args(world, fn, owner, qual, variant)
+            oname = OWNER_OBJ[owner]
+            if owner == 'RDMs' and variant == 1 and name not in ('append',):
+                oname = 'rdms_sub'         # a derived object (shared dicts, non-trivial index)
+            obj = T[oname]
             bound = getattr(obj, name)
             if name == 'sort_by':
                 kwargs = {'conds': 'alpha'} if owner != 'RDMs' else {'cond': ['c5', 'c3', 'c1', 'c2', 'c4']}
                 args = [] if owner != 'RDMs' else []
                 if owner != 'RDMs':
-                    return bound('conds'), [OWNER_OBJ[owner]]
-                return bound(**kwargs), [OWNER_OBJ[owner]]
+                    return bound('conds'), [oname]
+                return bound(**kwargs), [oname]
             np.random.seed(1)
-            return bound(*args, **kwargs), [OWNER_OBJ[owner]] + used
-        args, kwargs, used = build_args(world, fn, None, qual)
+            return bound(*args, **kwargs), [oname] + used
+        args, kwargs, used = build_args(world, fn, None, qual, variant)
         np.random.seed(1)
         return fn(*args, **kwargs), used
 
@@ -507,7 +555,7 @@ def comp_kind(x):
     return _kind(x) or 'other'
 
 
-MUTATORS = ['reorder', 'sort_by', 'append', 'array_write', 'ds_sort_by']
+MUTATORS = ['reorder', 'sort_by', 'sort_same', 'append', 'array_write', 'ds_sort_by']
 
 
 def mutate(world, target, mut):
@@ -535,6 +583,19 @@ def mutate(world, target, mut):
             except TypeError:
                 return False
             target.sort_by(**{name: vals[::-1]})
+            return True
+        if mut == 'sort_same' and target.n_cond >= 2:
+            # sorting by the order the object already has permutes nothing but still re-indexes
+            name = next((d for d in target.pattern_descriptors if d != 'index'), None)
+            if name is None:
+                return False
+            vals = list(target.pattern_descriptors[name])
+            try:
+                if len(set(vals)) != len(vals):
+                    return False
+            except TypeError:
+                return False
+            target.sort_by(**{name: vals})
             return True
         if mut == 'append':
             other = target.copy()
